@@ -50,7 +50,12 @@ def discover_roles_py(fn: ast.AST) -> Dict[str, str]:
                 pair = (a, b) if (a, b) in var_assigns else (b, a) if (b, a) in var_assigns else None
                 if pair is None:
                     continue
-                others = {x.id for x in ast.walk(n.test) if isinstance(x, ast.Name)} - set(pair) - {'w', 'dw', 'memory_width'}
+                from .pyfacts import resolve_names as _rn
+                try:
+                    test_ = _rn(fn, n.test, keep=tuple(pair) + ('w', 'dw'))          # type: ignore[arg-type]   # a named condition reads as what it names
+                except Exception:          # noqa: BLE001
+                    test_ = n.test
+                others = {x.id for x in ast.walk(test_) if isinstance(x, ast.Name)} - set(pair) - {'w', 'dw', 'memory_width'}
                 if len(others) == 1:
                     out.update(ip=pair[0], j=pair[1], f=others.pop())
     for st in ast.walk(fn):
